@@ -67,7 +67,8 @@ class _Cfg:
                     kw.get("allow_truncated", False),
                     kw.get("allow_only_basic", False),
                     kw.get("assumed_time_zone"),
-                    kw.get("default_to_unknown_time_zone", False))
+                    kw.get("default_to_unknown_time_zone", False),
+                    kw.get("dump_format"))
             else:
                 self.cache[k] = self.repo.parsers.TimePointParser(**kw)
         return self.cache[k]
@@ -286,6 +287,11 @@ def cfg_key(rng, nexp=None, basic=False, trunc=False, zone_mode=None):
     if zm in ("unknown", "both"):
         # (with an assumed zone as well, the assumed zone takes precedence)
         key["default_to_unknown_time_zone"] = True
+    if rng.random() < 0.12:
+        # a parser-wide dump format: parse(..., dump_as_parsed=True) still
+        # records the form the text was written in
+        key["dump_format"] = rng.choice(("CCYYMMDDThhmmZ", "CCYY-DDDThh",
+                                         "CCYY-MM-DDThh:mm:ss+hh:mm"))
     return key
 
 
